@@ -163,7 +163,7 @@ def mc(families, impl, mode, invariants, properties, liveness=False, timeout=300
 
 # ---------------------------------------------------------------------------
 # per property: invariants/properties of Sched.tla, families, negative controls
-DAG_Q = ["pair", "chain3p", "fanin1", "diamondp", "pullchain2", "pulltwice", "chain3d"]
+DAG_Q = ["pair", "chain3p", "fanin1", "diamondp", "pullchain2", "pulltwice", "chain3d", "diamondpd", "wsumstatic"]
 DAG_T = DAG_Q + ["pairL", "chain3t", "fanin2", "fanout", "fanoutshared", "diamondt", "pair3", "pairXL", "trigger"]
 CYC_Q = ["ring2", "pullring", "pullringtail", "ringbreak", "ring2tail", "ringfanin", "ringavg"]
 CYC_T = CYC_Q + ["ring3", "ring4"]
@@ -177,7 +177,7 @@ PLAN = {
                           (["repeatinteg"], "intended", ["NoRefusedPull"], "C01-repeated-time-at-integration")],
                 extra_trace=["pullfanout", "repeatinteg", "findep"]),
     "C02": dict(inv=[], prop=["OnlyAllowedChoices"], live=False,
-                quick=DAG_Q + ["ring2", "fanin2"], thorough=DAG_T + CYC_T,
+                quick=DAG_Q + ["ring2", "fanin2", "fanoutshared"], thorough=DAG_T + CYC_T,
                 neg=[(["pairL"], "nocompose", ["OnlyAllowedChoices"])], known_mc=[], extra_trace=[]),
     "C03": dict(inv=["EndReached"], prop=["Monotone", "NoLateUpdate", "NoUpdateAfterFinished", "Terminates"], live=True,
                 quick=["pair", "chain3p", "fanin1", "ring2", "diamondp", "pullchain2", "fanoutshared", "lateidle", "ringfanin",
@@ -297,6 +297,10 @@ def check(pid, tier):
         # C02: "the time for which the driver checks availability on a link equals the time that is
         # actually requested": an update whose announced pull is not available was checked for another time
         if pid == "C02" and base == "avail":
+            p = pid
+        # ... and a request that reaches the source for another time than the composed shift of the link's
+        # delay adapters is a time the driver did not check (e.g. one delay adapter shared by two readers)
+        if pid == "C02" and base in ("delay-shift", "delay-shift-notify"):
             p = pid
         if p != pid:
             other[p] = other.get(p, 0) + 1
